@@ -58,7 +58,7 @@ def live3_part(tier, mon, kinds=None):
     return {'label': 'live-three-message-histories', 'harness': first, 'monitors': [w], 'opts': {'max_depth': 0}}
 
 
-def story_item_parts(tier, mon, *, timing_variants=True, small=False, mixed=True, live=True, live3=True):
+def story_item_parts(tier, mon, *, timing_variants=True, small=False, mixed=True, live=True, live3=True, exotic=True):
     if tier == 'quick':
         parts = [
             {'label': 'stories-pool4-cap3-L2' if small else 'stories-pool5-cap4-L2',
@@ -108,6 +108,14 @@ def story_item_parts(tier, mon, *, timing_variants=True, small=False, mixed=True
             parts.append(live_part(tier, mon))
     if live3:
         parts.append(live3_part(tier, mon))
+    if exotic:
+        # IDs that are twins up to surrounding blanks or case, numeric-looking, markup-significant, non-ASCII
+        from .. import gen
+        pool = gen.EXOTIC_QUICK if tier == 'quick' else gen.EXOTIC_IDS
+        parts.append({'label': 'stories-exotic-ids', 'harness': HStory(pool=pool, cap=3, max_list=2, layouts=('before',), packings=('one',)), 'monitors': mon,
+                      'opts': {} if tier == 'quick' else {'time_cap': 600}})
+        parts.append({'label': 'items-exotic-ids', 'harness': HItem(pool=pool, cap=3, max_list=2, patterns=('plain',), positions=('second',), packings=('one',)),
+                      'monitors': mon, 'opts': {} if tier == 'quick' else {'time_cap': 600}})
     return parts
 
 
